@@ -370,14 +370,14 @@ func runWitness(id, spec string) (input, msg, cmd string) {
 	if len(fs) >= 3 && fs[0] == "histprobe" {
 		return runHistWitness(id, fs)
 	}
-	if len(fs) >= 2 && fs[0] == "hashprobe" {
-		bin := filepath.Join(verifDir, "bin", "hashprobe")
+	if len(fs) >= 2 && (fs[0] == "hashprobe" || fs[0] == "fsprobe") {
+		bin := filepath.Join(verifDir, "bin", fs[0])
 		wctx, wcancel := context.WithTimeout(context.Background(), 120*time.Second)
 		defer wcancel()
 		out, _ := exec.CommandContext(wctx, bin, "search", fs[1]).CombinedOutput()
 		for _, l := range strings.Split(string(out), "\n") {
 			if strings.HasPrefix(l, "FAILING-CASE ") {
-				return strings.TrimPrefix(l, "FAILING-CASE "), "the property-level oracle fails on this case against the real hash.New().Hash", bin + " search " + fs[1]
+				return strings.TrimPrefix(l, "FAILING-CASE "), "the property-level oracle fails on this case against the real code", bin + " search " + fs[1]
 			}
 		}
 		return "", "", ""
